@@ -61,8 +61,13 @@ CLAIMS = {
              "with Lean's wf on certified, stripped and uncertified grammars. Every generated certified grammar is also executed on "
              "the real library under a stack limit, a timeout and activation probes inside every Memoize whose maxima are compared "
              "with the model's ghost counters.",
-        note="Scope: no trims; terminals must consume (TermCons: proved for Rune and non-empty Op; false for a Regexp matching the empty "
-             "string, which Go's certificate would accept - the generator emits rune terminals only). The fuel bound is per call, not a "
+        note="Props/C02U.lean lifts the earlier limits: the certificate wfT = wf with one change (a Regexp terminal may match empty iff the "
+             "table rx says so; every other built-in terminal provably consumes: c02u_termCons for Rune, Op, Word, Bool, Nil, Integer, "
+             "Float, String, Char, TimeDuration) covers LeftTrim / RightTrim / Trim (text/trim.go passes the left-recursion context "
+             "through unchanged; when whitespace is skipped the position grows, otherwise the call is a left call at the same "
+             "position), c02u_terminates / _parse / _auto / _any_engine, and the re-entry bound and stack balance for EVERY grammar "
+             "with no certificate at all (c02u_reentry, c02u_balanced). Instances: the JSON example grammar and the arithmetic "
+             "grammar terminate on EVERY input (c02u_json_terminates, c02u_arith_terminates). The fuel bound is per call, not a "
              "uniform explicit polynomial. What stack depth is fatal is runtime.",
         technique="Lean 4 well-founded termination proof (lexicographic measure, total loop principles) + invariant proof of the activation bound + certificate-agreement stream + activation probes in the differential run"),
     "C03": dict(
